@@ -208,7 +208,9 @@ func init() {
 			// other ways of writing the command line: the configuration found under its default name, read from standard
 			// input, long flags with '=', the command's aliases
 			for _, f := range Formats {
-				for _, inv := range []string{"default-config", "stdin", "long", "alias-pkg", "alias-p"} {
+				// (stale-pwd: the PWD variable of the environment names another directory than the process is in - after a
+				// chdir of the caller, from an inherited environment; the working directory is where the process is)
+				for _, inv := range []string{"default-config", "stdin", "long", "alias-pkg", "alias-p", "stale-pwd"} {
 					for _, tg := range []string{"file", "dir", "empty"} {
 						for _, wp := range []bool{true, false} {
 							c := baseMeta()
@@ -501,7 +503,8 @@ func checkC15(env *engine.Env, ci any) engine.Outcome {
 		}
 		mk := func(root string) string {
 			d := metaDoc(c.Cfg, f, t)
-			d["contents"] = []any{map[string]any{"src": filepath.Join(root, "files/app.conf"), "dst": "/etc/app.conf", "type": "config"}, map[string]any{"src": filepath.Join(root, "files") + "/", "dst": "/opt/files"}}
+			d["contents"] = []any{map[string]any{"src": filepath.Join(root, "files/app.conf"), "dst": "/etc/app.conf", "type": "config"}, map[string]any{"src": filepath.Join(root, "files") + "/", "dst": "/opt/files"},
+				map[string]any{"dst": "/var/lib/app/state.db", "type": "ghost"}, map[string]any{"dst": "/var/lib/app/spool", "type": "dir"}}
 			d["scripts"] = map[string]any{"postinstall": filepath.Join(root, "scripts/post.sh")}
 			d["depends"] = []any{"${C15_DOTENV_VAR}", "kept"}
 			d["vendor"] = "vendor${C15_DOTENV_VAR}"
@@ -753,6 +756,21 @@ func checkC15(env *engine.Env, ci any) engine.Outcome {
 	}
 	cmd := exec.Command(bin, args...)
 	cmd.Dir = work
+	if c.Invoke == "stale-pwd" {
+		other, _ := os.MkdirTemp(env.Scratch, "stale-pwd-")
+		defer func() {
+			if entries, _ := os.ReadDir(other); len(entries) > 0 {
+				viol("cli:wrong-place:stale-pwd:"+f, "PWD in the environment named %s while the process ran in %s: %d file(s) were written below the directory PWD names (%s)", other, work, len(entries), entries[0].Name())
+			}
+			os.RemoveAll(other)
+		}()
+		for _, kv := range os.Environ() {
+			if !strings.HasPrefix(kv, "PWD=") {
+				cmd.Env = append(cmd.Env, kv)
+			}
+		}
+		cmd.Env = append(cmd.Env, "PWD="+other)
+	}
 	var so, se bytes.Buffer
 	cmd.Stdout, cmd.Stderr = &so, &se
 	if stdin != nil {
